@@ -582,7 +582,7 @@ impl Property for C12 {
     fn runs(&self, tier: Tier) -> u64 {
         match tier {
             Tier::Quick => 6_000,
-            Tier::Thorough => 400_000,
+            Tier::Thorough => 1_200_000,
         }
     }
 
